@@ -19,10 +19,12 @@ type bufWorld struct {
 	initial int
 	bsize   int
 	next    int
-	trace   []byte // A append, R remove-front, F front, G range, g<k>. range stopping after k callbacks, L len
+	trace   []byte // A append (fresh pointer), N append nil, S append the shared pointer again, R remove-front, F front, G range, g<k>. range stopping after k callbacks, L len
 	cap     int    // observed ring capacity (not judged)
 	// counters
 	grows, shrinks, removes, appends, emptied, frontEmpty, stops int
+	same                                                         *int
+	nils, sames, nilFrontFull                                    int
 }
 
 func checkBufferedLayout() string {
@@ -77,12 +79,38 @@ func (w *bufWorld) checkLen(after string) *bufFail {
 	return nil
 }
 
-func (w *bufWorld) appendBack() (fail *bufFail) {
+// values appended: a fresh pointer, a nil pointer (a queue of *T may hold
+// nil), or one shared pointer that is appended again and again.
+const (
+	vNew = iota
+	vNil
+	vSame
+)
+
+func (w *bufWorld) appendBack(kind int) (fail *bufFail) {
 	defer w.guard("AppendBack", &fail)
-	w.trace = append(w.trace, 'A')
-	w.next++
-	v := new(int)
-	*v = w.next
+	var v *int
+	switch kind {
+	case vNil:
+		w.trace = append(w.trace, 'N')
+		w.nils++
+	case vSame:
+		w.trace = append(w.trace, 'S')
+		if w.same == nil {
+			w.same = new(int)
+			*w.same = 1000
+		}
+		v = w.same
+		w.sames++
+	default:
+		w.trace = append(w.trace, 'A')
+		w.next++
+		v = new(int)
+		*v = w.next
+	}
+	if len(w.q) > 0 && w.q[0] == nil && len(w.q) == w.cap {
+		w.nilFrontFull++ // nil at the front of an exactly full ring
+	}
 	w.b.AppendBack(v)
 	w.q = append(w.q, v)
 	w.appends++
@@ -192,7 +220,7 @@ func (w *bufWorld) observers() *bufFail {
 
 func (w *bufWorld) replay(extra map[string]any) map[string]any {
 	m := map[string]any{"structure": "ring.Buffered vs slice queue", "initial": w.initial, "buffer": w.bsize,
-		"ops": string(w.trace), "legend": "A AppendBack, R RemoveFront, F Front, G Range, g<k>. Range stopped at callback k, L Len; Len checked after every step",
+		"ops": string(w.trace), "legend": "A AppendBack(fresh pointer), N AppendBack(nil), S AppendBack(the one shared pointer v1000), R RemoveFront, F Front, G Range, g<k>. Range stopped at callback k, L Len; Len checked after every step",
 		"queue_len": len(w.q)}
 	for k, v := range extra {
 		m[k] = v
@@ -208,6 +236,9 @@ func (w *bufWorld) flush(pre string) {
 	rec.Count(pre+"became_empty", w.emptied)
 	rec.Count(pre+"front_on_empty_observed", w.frontEmpty)
 	rec.Count(pre+"range_stopped_early", w.stops)
+	rec.Count(pre+"appended_nil", w.nils)
+	rec.Count(pre+"appended_same_pointer_again", w.sames)
+	rec.Count(pre+"append_with_nil_at_front_of_full_ring", w.nilFrontFull)
 }
 
 func (w *bufWorld) add(o *bufWorld) {
@@ -218,6 +249,9 @@ func (w *bufWorld) add(o *bufWorld) {
 	w.emptied += o.emptied
 	w.frontEmpty += o.frontEmpty
 	w.stops += o.stops
+	w.nils += o.nils
+	w.sames += o.sames
+	w.nilFrontFull += o.nilFrontFull
 }
 
 // ---------------------------------------------------------------- exhaustive
@@ -249,7 +283,7 @@ func runBufExhaustive(idx int, g group) {
 		fail := w.observers()
 		for i := 0; i < L && fail == nil; i++ {
 			if mask&(1<<uint(i)) != 0 {
-				fail = w.appendBack()
+				fail = w.appendBack(vNew)
 			} else {
 				fail = w.removeFront()
 			}
@@ -274,6 +308,71 @@ func runBufExhaustive(idx int, g group) {
 	rec.Bulk(idx, trivial, false)
 	tot.flush("buffered.exhaustive.")
 	rec.Count("buffered.exhaustive.sequences", int(nontrivial+trivial))
+}
+
+// runBufExhaustiveValues enumerates every valid sequence of exactly g.n
+// mutators over the alphabet {AppendBack(fresh), AppendBack(nil),
+// AppendBack(shared pointer), RemoveFront} that starts with symbol g.c, for
+// sizes (g.a, g.b); all observers run after every step.
+func runBufExhaustiveValues(idx int, g group) {
+	var tot bufWorld
+	var nontrivial, trivial int64
+	L := g.n
+	total := 1
+	for i := 1; i < L; i++ {
+		total *= 4
+	}
+	seq := make([]int, L)
+	seq[0] = g.c
+	for code := 0; code < total; code++ {
+		c := code
+		for i := L - 1; i >= 1; i-- {
+			seq[i] = c & 3
+			c >>= 2
+		}
+		depth, valid := 0, true
+		for _, sym := range seq {
+			if sym != 3 {
+				depth++
+			} else if depth == 0 {
+				valid = false
+				break
+			} else {
+				depth--
+			}
+		}
+		if !valid {
+			continue
+		}
+		w := newBufWorld(g.a, g.b)
+		fail := w.observers()
+		for i := 0; i < L && fail == nil; i++ {
+			if seq[i] == 3 {
+				fail = w.removeFront()
+			} else {
+				fail = w.appendBack(seq[i])
+			}
+			if fail == nil {
+				fail = w.observers()
+			}
+		}
+		if fail != nil {
+			rec.Violation(idx, fail.sig, fail.msg, w.replay(map[string]any{"mode": "exhaustive, value alphabet {fresh, nil, shared}"}))
+		}
+		if w.removes > 0 {
+			nontrivial++
+		} else {
+			trivial++
+		}
+		tot.add(w)
+		if code&1023 == 0 {
+			rec.Progress()
+		}
+	}
+	rec.Bulk(idx, nontrivial, true)
+	rec.Bulk(idx, trivial, false)
+	tot.flush("buffered.exhaustive_values.")
+	rec.Count("buffered.exhaustive_values.sequences", int(nontrivial+trivial))
 }
 
 // ---------------------------------------------------------------- seeded
@@ -303,7 +402,7 @@ func runBufSeeded(idx int, g group) {
 			switch r := rng.Intn(100); {
 			case r < 70:
 				if rng.Intn(100) < p || len(w.q) == 0 {
-					fail = w.appendBack()
+					fail = w.appendBack(pickW(rng, []int{12, 5, 3}))
 				} else {
 					fail = w.removeFront()
 				}
